@@ -1384,6 +1384,14 @@ func ruleC19HostLabel(c *Checker) {
 			}
 		}
 	}
+	// every label is measured: the split result is ranged over as it is, not a slice of it
+	if refs := split.Referrers(); refs != nil {
+		for _, r := range *refs {
+			if sl, ok := r.(*ssa.Slice); ok && sl.X == ssa.Value(split) {
+				c.fail(R, name, "all labels measured", p.Pos(sl.Pos()), "only a part of the split result (labels[lo:hi]) is looked at: the labels left out — the first, the last — are not measured, and a 5000-byte first label is accepted; String() then panics")
+			}
+		}
+	}
 	sep, _ := constString(split.Call.Args[1])
 	c.check(sep == ".", R, name, "host split at \".\"", p.Pos(split.Pos()), "strings.Split(host, \".\")", "the host name is split at "+strconv.Quote(sep)+", not at \".\": no label boundary is ever found, the length test sees single characters (or the whole name), and a 2000-character label is accepted — String() then panics")
 	for w := range p.backSlice(split.Call.Args[0], 0) {
